@@ -131,7 +131,7 @@ static int dispatch_hand(char **tok, int nt) {
     if (c) { Crystal_Struct *k = cs_build(nn, c); Crystal_Free(c);
       pr_cs(k); pr_d(Crystal_UnitCellVolume(k, NULL)); pr_d(Crystal_dSpacing(k, atoi(tok[3]), atoi(tok[4]), atoi(tok[5]), &e)); Crystal_Free(k); }
     END(); return 1; }
-  if (IS("StructAdd", 2)) {       /* build under a new name, add to the built-in array, release */
+  if (IS("StructAdd", 2) || IS("StructAddF", 2)) {       /* build under a new name, add to the built-in array, release (StructAddF: the C++ side uses the free function) */
     char *s = ps(tok[1]); char *nn = ps(tok[2]); BEGIN(); Crystal_Struct *c = Crystal_GetCrystal(s, NULL, &e);
     if (c) { Crystal_Struct *k = cs_build(nn, c); Crystal_Free(c); int r = Crystal_AddCrystal(k, NULL, &e); pr_i(r); Crystal_Free(k); }
     END(); return 1; }
